@@ -1,4 +1,5 @@
 pub mod cli;
 pub mod core;
+pub mod dap;
 pub mod lsp;
 pub mod sandbox;
